@@ -23,6 +23,7 @@ claimed = {
  "C18": dict(text="The real generator (GenerateSchemaRef, generateWithoutSaving, getTypeInfo/appendFields, cycle handling) runs over the engine's reflection emulation on harness-declared Go types; the JSON encoding of a value is built from the documented encoding/json rules with every scalar leaf symbolic (an int8 field is an 8-bit vector over all 256 values, uint64 over all 2^64, floats over all finite values), and the real VisitJSON of the generated schema must accept it on every path; generation must terminate and every $ref must name a component.", ref="DESIGN.md §6 C18"),
  "C15": dict(cat="other", text="Reduction, not schedule enumeration: by Go's memory model a data race needs two unsynchronised accesses to one location, one of them a write. The engine's footprint monitor marks every object reachable from package variables and from the shared roots (document, router, options, schema) when the call starts and reports any write to them that is not inside sync.Map/sync.Once/a held mutex, on every path of symbolic executions of VisitJSON, ValidateRequest, ValidateResponse, legacy FindRoute and schema generation over symbolic inputs. If every call only reads shared state, every interleaving is race-free and each call returns what it returns alone.", ref="DESIGN.md §6 C15"),
  "C04": dict(text="Rule x location product (selector-symbolic, weak fit said so; arithmetic subjects such as default-vs-minimum are symbolic and closed by the solver): a conforming document using every object kind is loaded by the real loader, walkers collect every position where a rule's subject occurs, one violation of one of 28 rules is applied at the chosen position, and the real T.Validate (with the option relevant to the rule on/off) must reject it unless the option names that rule; option subsets must keep the conforming document accepted and must not hide unrelated violations.", ref="DESIGN.md §6 C04"),
+ "C03": dict(text="Selector-symbolic (weak fit, said so; YAML and byte-level JSON syntax are not applicable): 27 object kinds of both specification versions in normal form with every specified field and an x- extension; for every variant (all members, each member dropped, each member alone) the text is decoded by the JSON contract model (every repository UnmarshalJSON interpreted), re-encoded through the interpreted MarshalJSON/MarshalYAML, and the JSON trees must be equal (nothing lost, nothing invented) and stable under a second round trip.", ref="DESIGN.md §6 C03"),
  "C05": dict(text="Differential round trip: a reference serialiser written from the OAS 3.0.3 style table builds the request text from symbolic leaf texts (every printable-ASCII text within the length bound); the real decodeStyledParameter/ValidateParameter must return the same structure typed by the declared schema, found-flag and error class; string plumbing (prefix, delimiter, pair and index logic) is decided for all leaf texts at once.", ref="DESIGN.md §6 C05"),
  "C10": dict(text="Panic-freedom as reachability: every dereference, index, type assertion and explicit panic on every path of the real validators is an implicit assertion; inputs are all values within bounds against schemas whose only assumption is that the real Schema.Validate/T.Validate returned nil. A reached panic is replayed natively before it is reported.", ref="DESIGN.md §6 C10"),
  "C12": dict(text="Relational check with no oracle: the real VisitJSON is run in default, fail-fast, multi-error and customizer modes and through IsMatching on the same symbolic input; verdict equality and (JSON pointer resolves, Value is the value found there) for every SchemaError are asserted per path and closed by the solver.", ref="DESIGN.md §6 C12"),
